@@ -62,6 +62,27 @@ Theorem mutex_exclusion : forall (ps : list (list op)) (sched : list tid) t1 t2 
 Proof. exact (ThreadsProofs.mutex_exclusion_gen thr_clear_on_catch thr_trylock_busy_result (eq_refl false)). Qed.
 Print Assumptions mutex_exclusion.
 
+(* 5a. lock has no timeout: lock / with-entry on an owned mutex does not complete, however long (however many
+   scheduling attempts) the thread waits; when it completes the thread owns the mutex.  With 5 (mutex_exclusion:
+   holding = between lock-return and unlock) at most one thread is between lock-return and unlock, for every
+   schedule and every waiting time. *)
+Theorem lock_waits : forall n t g l s m k o,
+  nth_error (thr g) t = Some (l, s) ->
+  (code l = KOp (OLock m) :: k \/ exists bd, code l = KOp (OWith m bd) :: k) ->
+  mtx g m = Some o -> Nat.iter n (M_step t) g = g.
+Proof. exact (ThreadsProofs.lock_waits_gen thr_clear_on_catch thr_trylock_busy_result). Qed.
+Print Assumptions lock_waits.
+
+Theorem lock_acquires : forall t g l s m k,
+  nth_error (thr g) t = Some (l, s) ->
+  aborted g = false -> started s = true -> done l = false -> fatal l = false -> ub s = false ->
+  (code l = KOp (OLock m) :: k \/ exists bd, code l = KOp (OWith m bd) :: k) ->
+  mtx g m = None ->
+  mtx (M_step t g) m = Some t /\
+  option_map (fun ls => holding (snd ls)) (nth_error (thr (M_step t g)) t) = Some (m :: holding s).
+Proof. exact (ThreadsProofs.lock_acquires_gen thr_clear_on_catch thr_trylock_busy_result). Qed.
+Print Assumptions lock_acquires.
+
 (* 5b. no lost update: a thread about to store the second half of a non-atomic `cell = cell + 1` still holds
    the cell's mutex, the value it loaded is still current, and its store adds exactly one to the current value *)
 Theorem guarded_increment : forall (ps : list (list op)) (sched : list tid) t l s m k,
@@ -142,7 +163,7 @@ Print Assumptions statics_audited.
 Theorem source_shapes :
   thr_exc_via_tls = true /\ thr_gc_via_tls = true /\ thr_current_via_key = true /\
   thr_init_own_records = true /\ thr_join_waits = true /\ thr_with_is_lock_unlock = true /\
-  thr_trylock_busy_result = false /\ thr_mark_own_tls_only = true.
+  thr_trylock_busy_result = false /\ thr_mark_own_tls_only = true /\ thr_lock_blocking = true.
 Proof. exact ThreadsProofs.source_shapes. Qed.
 Print Assumptions source_shapes.
 
